@@ -60,7 +60,11 @@ static void fit_predict(dset *tr, dset *te, fitres *f)
   LDA(tr->mx, tr->my, f->lda);
   for (s = 0; s < 2; s++) {
     matrix *pf, *mn;
-    initMatrix(&pf); initMatrix(&mn); initMatrix(&f->prob[s]); initMatrix(&f->pred[s]);
+    size_t no = (s ? te->mx : tr->mx)->row;
+    initMatrix(&pf); initMatrix(&mn);
+    /* caller-provided outputs in three states: empty, stale with the result's shape, stale with another shape */
+    f->prob[s] = drv_out_matrix(vh_current(), no, f->lda->nclass, 1u + (unsigned)s);
+    f->pred[s] = drv_out_matrix(vh_current(), no, 1, 3u + (unsigned)s);
     LDAPrediction(s ? te->mx : tr->mx, f->lda, pf, f->prob[s], mn, f->pred[s]);
     DelMatrix(&pf); DelMatrix(&mn);
   }
